@@ -373,7 +373,7 @@ def run(ctx):
     if ctx.quick:
         n_noinv, n_inv, maxlen, want, budget, branch = 60, 40, 4, 4, 200, 3
     else:
-        n_noinv, n_inv, maxlen, want, budget, branch = 1200, 800, 5, 6, 600, 3
+        n_noinv, n_inv, maxlen, want, budget, branch = 500, 300, 5, 6, 500, 3
     sources = [("hand", hp, None) for hp in hand_corpus()]
     noinv = dict(invariants=False, bounded=False, max_actions=3)
     sources += [("noinv", None, dict(noinv)) for _ in range(n_noinv)]
